@@ -28,6 +28,18 @@ impl G {
     pub fn set_return_type_at(&mut self, k: usize, t: ValueType) requires k < old(self).rt@.len() ensures final(self).rt@ == old(self).rt@.update(k as int, t) { unimplemented!() }
 }
 pub struct PendingDef { pub body: BodyH, pub scope_index: usize }
+// --- one `return` statement seen by the return-type inference (which runs in the scope of the DEFINITION, before the body is checked)
+pub struct ExprH { pub id: Ghost<int> }
+pub struct Bound { pub g: Ghost<int> }                           // the names the function binds itself: parameters, `make` locals, nested functions
+pub uninterp spec fn mentions(e: int, b: int) -> bool;           // the expression names one of them
+pub uninterp spec fn outer_type(e: int) -> Option<ValueType>;    // infer_expr_type in the definer's scope
+#[verifier::external_body]
+pub fn expr_mentions(e: &ExprH, b: &Bound) -> (r: bool) ensures r == mentions(e.id@, b.g@) { unimplemented!() }
+pub struct Rz { pub g: Ghost<int> }
+impl Rz {
+    #[verifier::external_body]
+    pub fn infer_expr_type(&self, e: &ExprH) -> (r: Option<ValueType>) ensures r == outer_type(e.id@) { unimplemented!() }
+}
 '''
 
 UNIT = VUnit(
@@ -55,7 +67,7 @@ UNIT = VUnit(
               requires=["pending_def.scope_index < old(g).rt@.len()"],
               ensures=["final(g).rt@ =~= old(g).rt@.update(pending_def.scope_index as int, old(g).inferred(pending_def.body.id@))",
                        "changed == (changed0 || old(g).rt@[pending_def.scope_index as int] != old(g).inferred(pending_def.body.id@))"],
-              rewrites=[Rw("R9", r"self\.infer_function_return_type\(pending_def\.body\)", "g.infer_function_return_type(&pending_def.body)", min_matches=1),
+              rewrites=[Rw("R9", r"self\.infer_function_return_type\(\s*(?:pending_def\.params,\s*)?pending_def\.body\)", "g.infer_function_return_type(&pending_def.body)", min_matches=1),
                         Rw("R13", r"let current_scope = self\s*\.function_scopes\s*\.last_mut\(\)\s*\.expect\(\"function scope stack should never be empty\"\);", "", min_matches=1),
                         Rw("R13", r"let sig = &mut current_scope\[pending_def\.scope_index\];", "", min_matches=1),
                         Rw("R7", r"debug_assert(?:_eq)?!\([^;]*\);", "", min_matches=0),
@@ -64,5 +76,19 @@ UNIT = VUnit(
                         Rw("R9", r"sig\.return_type = return_type;", "g.set_return_type_at(pending_def.scope_index, return_type);", min_matches=1),
                         Rw("R11b", r"continue;", "return changed;", min_matches=0)],
               real_name="Resolver::predeclare_block_functions (body of the refinement pass)"),
+        # one `return`: exactly one type is recorded for it; a bare return is Null; an expression that mentions a name the function binds
+        # itself is Dynamic WHATEVER a same-named outer declaration's type is (otherwise valid calls are rejected: C09), and so is one
+        # the definer's scope cannot type
+        Block("return_stmt_type", within="collect_return_types_from_stmt", impl="impl Resolver", arm=True,
+              anchor=r"Stmt::Return \{ expr, \.\. \} =>",
+              sig="fn return_stmt_type(me: &Rz, expr: &Option<&ExprH>, bound: &Bound, return_types: &mut Vec<ValueType>)",
+              ensures=["final(return_types)@.len() == old(return_types)@.len() + 1",
+                       "final(return_types)@.drop_last() =~= old(return_types)@",
+                       "*expr is None ==> final(return_types)@.last() is Null",
+                       "*expr is Some && mentions((*expr)->Some_0.id@, bound.g@) ==> final(return_types)@.last() is Dynamic",
+                       "*expr is Some && !mentions((*expr)->Some_0.id@, bound.g@) ==> final(return_types)@.last() == (if outer_type((*expr)->Some_0.id@) is Some { outer_type((*expr)->Some_0.id@)->Some_0 } else { ValueType::Dynamic })"],
+              rewrites=[Rw("R9", r"Self::expr_mentions\(expr_ref, bound\)", "expr_mentions(expr_ref, bound)", min_matches=0),
+                        Rw("R9", r"self\.infer_expr_type\(expr_ref\)", "me.infer_expr_type(expr_ref)", min_matches=1)],
+              real_name="Resolver::collect_return_types_from_stmt (Stmt::Return arm)"),
     ],
 )
